@@ -3,12 +3,23 @@ mesh values equal the estimator on the sigma-clipped unmasked box pixels.
 
 Shape (C): two full Cartesian products executed on the real ``Background2D``:
 
-* structural product: image shape x box size x edge method x mask x coverage
-  mask x exclude_percentile x interpolator (default estimators, default
-  3-sigma clip, default 3x3 mesh filter);
-* estimator product on 3 representative structures: background estimator x
-  RMS estimator x sigma clip x filter_size x filter_threshold x data
-  representation (float64, float32, Quantity).
+* structural product: image shape x box size x edge method x mask x data kind
+  (all finite / unmasked NaN, +inf, -inf pixels) x coverage mask x
+  exclude_percentile x interpolator (default estimators, default 3-sigma clip,
+  default 3x3 mesh filter).  mask x data kind x coverage is a full product, so
+  every branch of the mask combination ({no mask, mask only, coverage only,
+  both} x {finite data, non-finite pixels outside / under the given masks}) is
+  reached;
+* estimator product on 4 representative structures (one of them: coverage mask
+  only + non-finite data): background estimator x RMS estimator x sigma clip x
+  filter_size x filter_threshold x data representation (float64, float32,
+  Quantity).
+
+Every ``Background2D`` call receives its own fresh *copies* of the mask and
+coverage-mask arrays; the oracle judges with the harness's pristine (read-only)
+arrays, never with an array object that was handed to photutils (an
+implementation that combines masks in place would otherwise rewrite the truth
+the maps are judged against).
 
 Both products are run twice: with the optional ``bottleneck`` accelerator
 importable, and with it blocked.  Blocking is done the only sound way: the
@@ -21,9 +32,11 @@ would miss the ``from ... import nanmedian`` copies in core.py/biweight.py).
 Oracles: (1) an independent plain-Python reference of the mesh
 (``mcphot/ref/bkg2d.py``: box slicing, sigma clipping, the nine estimators, the
 documented exclusion rule, the documented median filter); (2) relations that
-need no reference: shape, finiteness, fill value, bit-exact blindness to the
-values stored under ``mask`` / ``coverage_mask``, constant image, shift and
-scale equivariance, clipped-spline range.
+need no reference: shape, finiteness, fill value on exactly the coverage
+pixels, bit-exact blindness to the values stored under ``mask`` /
+``coverage_mask``, automatically masked non-finite pixels == the same pixels
+given through ``mask``, constant image, shift and scale equivariance,
+clipped-spline range.
 """
 import itertools
 import os
@@ -42,7 +55,10 @@ LEVEL = 'exploration'
 RULE = ('two full Cartesian products (see alphabet), each executed with bottleneck present and blocked; cases are '
         'distinct product indices; a case is non-trivial when the reference mesh has at least two included boxes '
         'with different values (so the full-size map is not a constant and every stage - box statistics, '
-        'exclusion, fill, filter, interpolation - can change the result)')
+        'exclusion, fill, filter, interpolation - can change the result).  In the structural product mask kind x '
+        'data kind (finite / unmasked NaN,+inf,-inf pixels) x coverage kind is a full product; every Background2D '
+        'call gets fresh copies of mask and coverage_mask and all clauses are judged with the harness\'s own '
+        'read-only originals')
 ASSUMPTIONS = ['numpy arithmetic, sorting and scipy.ndimage.zoom / cKDTree are trusted; the photutils estimator classes, '
                'astropy SigmaClip, the bottleneck/numpy nan-statistics dispatch and the mesh filter are NOT trusted '
                '(re-derived in mcphot/ref/bkg2d.py)',
@@ -51,7 +67,16 @@ ASSUMPTIONS = ['numpy arithmetic, sorting and scipy.ndimage.zoom / cKDTree are t
                'the exclusion rule is the documented one (a box is excluded when MORE than exclude_percentile percent '
                'of its padded pixels are masked or clipped, or when it has no good pixel); where the float threshold '
                'is not exactly representable the boundary is judged either way',
-               'blocked-bottleneck units run in a fresh interpreter with sys.modules["bottleneck"] = None']
+               'blocked-bottleneck units run in a fresh interpreter with sys.modules["bottleneck"] = None',
+               'non-finite data pixels are "automatically masked" (documented warning text): they count as masked '
+               'pixels of their box and must give the same maps as the same pixels passed through mask',
+               'the clause "fill_value on exactly the coverage pixels" is asserted in its "nowhere else" direction '
+               'only when fill_value lies outside [min, max] of the interpolated mesh (both interpolators produce '
+               'values inside that range: clipped spline / positive-weight mean), counted in '
+               'counters.maps_checked_fill_only_on_coverage vs maps_fill_inside_mesh_range',
+               'mask / coverage_mask are passed as fresh writable bool ndarrays (copies); aliasing of one caller '
+               'array passed as both mask and coverage_mask is not explored; mutation of the caller\'s arrays is '
+               'not judged here (that is property C10), only its effect on the returned maps']
 
 FILL = -7.25          # fill_value used in the structural product (non-default, exactly representable)
 _IN_BLOCKED_CHILD = False
@@ -62,7 +87,10 @@ SHAPES_THOROUGH = SHAPES_QUICK + [(9, 4), (4, 4), (8, 5), (9, 9), (6, 7), (4, 7)
                                   (8, 8), (9, 6), (8, 9)]
 BOXES = [(2, 2), (3, 3), (2, 3), (4, 5), 'image', 'larger']
 EDGES = ['pad', 'crop']
-MASKS = ['none', 'single', 'fullbox', 'checker', 'allbutone', 'nonfinite']
+MASKS = ['none', 'single', 'fullbox', 'checker', 'allbutone']
+DATAK = ['finite', 'nonfinite']      # 'nonfinite': NaN at the centre, +inf top-right, -inf bottom-left (not in mask
+#                                      unless the mask kind happens to cover them; 'lastrow' / 'corner' coverage
+#                                      cover the -inf / the +inf respectively, the NaN is never coverage-masked)
 COVS = ['none', 'lastrow', 'corner']
 EPS = [0, 10, 50, 100]
 EPS_THOROUGH = [0, 10, 25, 50, 90, 100]
@@ -79,6 +107,8 @@ STRUCTS = [
     {'shape': (6, 6), 'box': (3, 3), 'edge': 'pad', 'mask': 'none', 'cov': 'none', 'ep': 10, 'interp': 'zoom'},
     {'shape': (7, 8), 'box': (2, 3), 'edge': 'pad', 'mask': 'mixed', 'cov': 'none', 'ep': 70, 'interp': 'zoom'},
     {'shape': (9, 12), 'box': (4, 5), 'edge': 'pad', 'mask': 'single', 'cov': 'block', 'ep': 80, 'interp': 'idw'},
+    {'shape': (6, 7), 'box': (3, 3), 'edge': 'pad', 'mask': 'none', 'cov': 'lastrow', 'ep': 50, 'interp': 'zoom',
+     'nonfinite': True},
     # thorough only:
     {'shape': (7, 9), 'box': (3, 4), 'edge': 'crop', 'mask': 'single', 'cov': 'lastrow', 'ep': 50, 'interp': 'zoom'},
     {'shape': (6, 7), 'box': 'image', 'edge': 'pad', 'mask': 'single', 'cov': 'none', 'ep': 20, 'interp': 'zoom'},
@@ -86,7 +116,7 @@ STRUCTS = [
 
 
 def structs(tier):
-    return STRUCTS if tier == 'thorough' else STRUCTS[:3]
+    return STRUCTS if tier == 'thorough' else STRUCTS[:4]
 
 
 def shapes(tier):
@@ -122,15 +152,19 @@ def make_data(shape, seed):
     return d
 
 
+def nonfinite_pixels(shape):
+    """data kind 'nonfinite': one NaN, one +inf, one -inf pixel"""
+    ny, nx = shape
+    return [((ny // 2, nx // 2), np.nan), ((0, nx - 1), np.inf), ((ny - 1, 0), -np.inf)]
+
+
 def make_mask(kind, shape, box, edge):
-    """-> (mask or None, nonfinite pixel list)"""
+    """-> mask (read-only: the harness's pristine original) or None"""
     ny, nx = shape
     by, bx = box
     m = np.zeros(shape, bool)
     if kind == 'none':
-        return None, []
-    if kind == 'nonfinite':
-        return None, [((ny // 2, nx // 2), np.nan), ((0, nx - 1), np.inf), ((ny - 1, 0), -np.inf)]
+        return None
     if kind == 'single':
         m[ny // 2, nx // 2] = True
     elif kind == 'fullbox':
@@ -150,7 +184,8 @@ def make_mask(kind, shape, box, edge):
         m[5, 1] = True
     else:
         raise ValueError(kind)
-    return m, []
+    m.setflags(write=False)
+    return m
 
 
 def make_cov(kind, shape):
@@ -165,6 +200,7 @@ def make_cov(kind, shape):
         c[:2, :2] = True
     else:
         raise ValueError(kind)
+    c.setflags(write=False)         # the harness's pristine original; photutils only ever sees copies
     return c
 
 
@@ -220,8 +256,16 @@ class Built:
 def build(acc, case, data, box, kw, site):
     """Construct and read everything once, in the conventional order
     (background before RMS: the reverse order with filter_threshold is a C09
-    matter).  -> Built or the string 'allboxes' or None (violation recorded)."""
+    matter).  -> Built or the string 'allboxes' or None (violation recorded).
+
+    ``mask`` / ``coverage_mask`` are handed over as fresh writable copies on
+    every call: whatever the implementation does to the arrays it receives can
+    neither leak into the next call nor into the arrays the oracle uses."""
     pb = _phot()[0]
+    kw = dict(kw)
+    for k in ('mask', 'coverage_mask'):
+        if kw.get(k) is not None:
+            kw[k] = np.array(kw[k], dtype=bool, copy=True)
     try:
         b = pb.Background2D(data, box, **kw)
     except ValueError as e:
@@ -258,13 +302,16 @@ def float_threshold_exact(box_npix, ep):
 # ---------------------------------------------------------------- the oracle for one configuration
 def check_config(acc, case, seed, *, shape, box, edge, mask_kind, cov_kind, ep, interp, bkg_name='SExtractor',
                  rms_name='Std', clip=(3.0, 10), fsize=(3, 3), fthr=None, rep='float64', fill=FILL,
-                 relations=True, tier='quick'):
+                 relations=True, tier='quick', nonfinite=False):
     pb, SigmaClip, u = _phot()
     shape = tuple(shape)
     ebox = eff_box(shape, box)
     rbox = box_of(shape, box)
     base = make_data(shape, seed)
-    mask, nonfinite = make_mask(mask_kind, shape, ebox, edge)
+    if mask_kind == 'nonfinite':          # spelling of replay files written before 'data kind' became an axis
+        mask_kind, nonfinite = 'none', True
+    mask = make_mask(mask_kind, shape, ebox, edge)
+    nonfinite = nonfinite_pixels(shape) if nonfinite else []
     cov = make_cov(cov_kind, shape)
     for (p, v) in nonfinite:
         base[p] = v
@@ -455,6 +502,24 @@ def check_config(acc, case, seed, *, shape, box, edge, mask_kind, cov_kind, ep, 
                     acc.violation('mask-blind', f'{nm}:{which}', case, f'hidden pixels := {tag}',
                                   'bit-identical result', _first_diff(val(getattr(b2, nm)), val(getattr(b, nm))))
                     break
+    # ---- 3b. automatically masked non-finite pixels == the same pixels given through ``mask`` -------------
+    # (documented: invalid values are "automatically masked"; together with blindness to the value stored under
+    # ``mask`` the two calls reduce to the same good-pixel set holding the same values -> bit-identical)
+    auto = ~np.isfinite(base) & ~hidden
+    if auto.any():
+        acc.counters['cases_with_nonfinite_pixels_outside_given_masks'] += 1
+        which = ('none' if mask is None else 'mask') + '+' + ('none' if cov is None else 'coverage')
+        kw6 = dict(kw, mask=auto if mask is None else (mask | auto))
+        b6 = build(acc, case, present(base.copy()), rbox, kw6, 'Background2D(nonfinite-in-mask)')
+        if b6 == 'allboxes':
+            acc.violation('mask-blind', f'nonfinite-vs-explicit-mask:raises:{which}', case, 'ValueError all boxes', 'same as base')
+        elif isinstance(b6, Built) and check_maps(acc, case, b6, shape, cov, fill, interp):
+            for nm in ('bkg', 'rms', 'mesh', 'rmesh', 'npix'):
+                if not np.array_equal(val(getattr(b6, nm)), val(getattr(b, nm)), equal_nan=(nm != 'npix')):
+                    acc.violation('mask-blind', f'nonfinite-vs-explicit-mask:{nm}:{which}', case,
+                                  'non-finite pixels added to mask', 'bit-identical result',
+                                  _first_diff(val(getattr(b6, nm)), val(getattr(b, nm))))
+                    break
     if rep != 'float64':
         return
 
@@ -538,9 +603,11 @@ def _extreme(g, const):
 
 
 def check_maps(acc, case, b, shape, cov, fill, interp):
+    """``cov`` must be the harness's pristine coverage mask (never an array that was passed to photutils)."""
     ok = True
     bk, br = val(b.bkg), val(b.rms)
-    for nm, a in (('background', bk), ('rms', br)):
+    vis = np.ones(shape, bool) if cov is None else ~cov
+    for nm, a, mesh in (('background', bk, val(b.mesh)), ('rms', br, val(b.rmesh))):
         if a.shape != tuple(shape):
             acc.violation('map-shape', nm, case, a.shape, tuple(shape))
             ok = False
@@ -551,8 +618,23 @@ def check_maps(acc, case, b, shape, cov, fill, interp):
         if cov is not None and not np.all(a[cov] == fill):
             acc.violation('fill-value', nm, case, a[cov][:4].tolist(), fill)
             ok = False
+        # "fill_value exactly on the coverage pixels": nowhere else.  Decidable when fill_value is outside the range
+        # of the mesh that is interpolated: the clipped spline is clipped to that range and the IDW map is a
+        # positive-weight mean of mesh values (inside the range up to a few ulp), so no pixel outside the coverage
+        # mask can legitimately be bit-equal to fill_value.  (mesh finite: checked by the caller / above.)
+        if np.all(np.isfinite(mesh)) and not (mesh.min() <= fill <= mesh.max()):
+            acc.counters['maps_checked_fill_only_on_coverage'] += 1
+            stray = vis & (a == fill)
+            if stray.any():
+                p = tuple(int(x) for x in np.argwhere(stray)[0])
+                acc.violation('fill-value', f'{nm}:outside-coverage_mask:{"no-coverage_mask" if cov is None else "coverage_mask-given"}',
+                              case, f'{int(stray.sum())} pixels outside the coverage mask == fill_value, first {p}',
+                              f'fill_value {fill} only on the {0 if cov is None else int(cov.sum())} coverage pixels '
+                              f'(mesh range [{float(mesh.min())!r}, {float(mesh.max())!r}])')
+                ok = False
+        else:
+            acc.counters['maps_fill_inside_mesh_range'] += 1
     if ok and interp == 'zoom':
-        vis = np.ones(shape, bool) if cov is None else ~cov
         # np.clip to [min(mesh), max(mesh)] of the very mesh that is interpolated: exact
         for nm, a, mesh in (('background', bk, val(b.mesh)), ('rms', br, val(b.rmesh))):
             if a[vis].size and (a[vis].min() < mesh.min() or a[vis].max() > mesh.max()):
@@ -563,10 +645,10 @@ def check_maps(acc, case, b, shape, cov, fill, interp):
 
 
 # ---------------------------------------------------------------- cases
-def struct_case_dict(shape, box, edge, mk, ck, ep, interp, bn):
+def struct_case_dict(shape, box, edge, mk, dk, ck, ep, interp, bn):
     return {'product': 'structural', 'shape': list(shape), 'box': box if isinstance(box, str) else list(box),
-            'edge': edge, 'mask': mk, 'coverage': ck, 'exclude_percentile': ep, 'interpolator': interp,
-            'bottleneck': bn}
+            'edge': edge, 'mask': mk, 'data_kind': dk, 'coverage': ck, 'exclude_percentile': ep,
+            'interpolator': interp, 'bottleneck': bn}
 
 
 def run_case(acc, case, seed, tier):
@@ -574,7 +656,8 @@ def run_case(acc, case, seed, tier):
     if case['product'] == 'structural':
         box = case['box'] if isinstance(case['box'], str) else tuple(case['box'])
         check_config(acc, case, seed, shape=tuple(case['shape']), box=box, edge=case['edge'], mask_kind=case['mask'],
-                     cov_kind=case['coverage'], ep=case['exclude_percentile'], interp=case['interpolator'], tier=tier)
+                     cov_kind=case['coverage'], ep=case['exclude_percentile'], interp=case['interpolator'], tier=tier,
+                     nonfinite=case.get('data_kind', 'finite') == 'nonfinite')
     else:
         st = STRUCTS[case['structure']]
         check_config(acc, case, seed, shape=st['shape'], box=st['box'], edge=st['edge'], mask_kind=st['mask'],
@@ -582,7 +665,7 @@ def run_case(acc, case, seed, tier):
                      rms_name=case['bkgrms_estimator'],
                      clip=None if case['sigma_clip'] is None else tuple(case['sigma_clip']),
                      fsize=tuple(case['filter_size']), fthr=case['filter_threshold'], rep=case['data'],
-                     fill=0.0, tier=tier)
+                     fill=0.0, tier=tier, nonfinite=bool(st.get('nonfinite', False)))
 
 
 def plan(tier, seed):
@@ -604,8 +687,8 @@ def unit_cases(unit, tier):
     if unit['kind'] == 'structural':
         shape = shapes(tier)[unit['shape']]
         box = BOXES[unit['box']]
-        for edge, mk, ck, ep, interp in itertools.product(EDGES, MASKS, COVS, eps(tier), INTERPS):
-            yield dict(struct_case_dict(shape, box, edge, mk, ck, ep, interp, bn), tier=tier)
+        for edge, mk, dk, ck, ep, interp in itertools.product(EDGES, MASKS, DATAK, COVS, eps(tier), INTERPS):
+            yield dict(struct_case_dict(shape, box, edge, mk, dk, ck, ep, interp, bn), tier=tier)
     else:
         clip = CLIPS[unit['clip']]
         for be, re_, fs, ft, rep in itertools.product(BKG_EST, RMS_EST, FSIZES, FTHRS, REPRS):
@@ -660,11 +743,16 @@ def _in_child(req):
 
 def describe(tier, seed):
     ns = len(shapes(tier))
-    nstruct = ns * len(BOXES) * len(EDGES) * len(MASKS) * len(COVS) * len(eps(tier)) * len(INTERPS)
+    nstruct = ns * len(BOXES) * len(EDGES) * len(MASKS) * len(DATAK) * len(COVS) * len(eps(tier)) * len(INTERPS)
     nest = len(structs(tier)) * len(BKG_EST) * len(RMS_EST) * len(CLIPS) * len(FSIZES) * len(FTHRS) * len(REPRS)
     return {'alphabet': {
         'structural_product': {'shape': [list(s) for s in shapes(tier)], 'box': [b if isinstance(b, str) else list(b) for b in BOXES],
-                               'edge_method': EDGES, 'mask': MASKS, 'coverage_mask': COVS, 'exclude_percentile': eps(tier),
+                               'edge_method': EDGES, 'mask': MASKS,
+                               'data_kind': {'finite': 'generic noise + 2 outliers',
+                                             'nonfinite': 'same with NaN at (ny//2, nx//2), +inf at (0, nx-1), -inf at '
+                                                          '(ny-1, 0); not added to mask (crossed with every mask and '
+                                                          'coverage kind: the pixels fall outside and under them)'},
+                               'coverage_mask': COVS, 'exclude_percentile': eps(tier),
                                'interpolator': INTERPS, 'fill_value': FILL, 'configurations': nstruct},
         'estimator_product': {'structures': [{k: (list(v) if isinstance(v, tuple) else v) for k, v in s.items()} for s in structs(tier)],
                               'bkg_estimator': BKG_EST, 'bkgrms_estimator': RMS_EST,
@@ -672,6 +760,10 @@ def describe(tier, seed):
                               'filter_size': [list(f) for f in FSIZES], 'filter_threshold': FTHRS, 'data': REPRS,
                               'configurations': nest},
         'bottleneck': ['present', 'blocked (fresh interpreter, sys.modules["bottleneck"]=None before import)'],
-        'relations_per_configuration': 'mesh vs reference (filter_size=1 twin), filter vs reference, shape, finite, fill, '
-                                       'zoom range, hidden pixels := +-1e9 / NaN / +-inf, constant image(s), shift(s), scale',
+        'relations_per_configuration': 'mesh vs reference (filter_size=1 twin), filter vs reference, shape, finite, '
+                                       'fill_value on the coverage pixels and (fill_value outside the mesh range) on no '
+                                       'other pixel, zoom range, hidden pixels := +-1e9 / NaN / +-inf, unmasked non-finite '
+                                       'pixels moved into mask, constant image(s), shift(s), scale',
+        'array_handling': 'every Background2D call receives fresh writable copies of mask / coverage_mask; the oracle '
+                          'uses the read-only originals',
         'total_configurations': 2 * (nstruct + nest)}}
